@@ -209,11 +209,13 @@ class SgrKinds:
             elif p in (39, 49):
                 self._set("fg" if p == 39 else "bg", "d")
             elif p in (38, 48) and i + 2 < len(ps) and ps[i + 1] == 5:
-                self._set("fg" if p == 38 else "bg", "idx")
+                if ps[i + 2] <= 255:      # a selector that names no colour selects nothing
+                    self._set("fg" if p == 38 else "bg", "idx")
                 i += 2
                 self.trailing_zero_component = i == len(ps) - 1 and ps[i] == 0
             elif p in (38, 48) and i + 4 < len(ps) and ps[i + 1] == 2:
-                self._set("fg" if p == 38 else "bg", "true")
+                if max(ps[i + 2:i + 5]) <= 255:
+                    self._set("fg" if p == 38 else "bg", "true")
                 i += 4
                 self.trailing_zero_component = i == len(ps) - 1 and ps[i] == 0
             i += 1
@@ -486,7 +488,9 @@ class BGen:
 
 # ---- (a) generators -----------------------------------------------------------------------------------------
 SGRS = [[48, 5, 0], [38, 2, 0, 0, 0], [0], [], [31], [42], [1], [4], [7], [5], [24], [27], [1, 33, 44], [38, 5, 100], [48, 5, 200], [38, 5, 3], [39], [49], [39, 49], [32, 0], [0, 45],
-        [91], [102], [1, 94], [38, 2, 1, 2, 3], [48, 2, 250, 128, 0], [38, 2, 9, 8, 7, 48, 2, 1, 1, 1], [36, 47], [4, 35], [38, 5, 255, 48, 5, 16], [97, 100]]
+        [91], [102], [1, 94], [38, 2, 1, 2, 3], [48, 2, 250, 128, 0], [38, 2, 9, 8, 7, 48, 2, 1, 1, 1], [36, 47], [4, 35], [38, 5, 255, 48, 5, 16], [97, 100],
+        # selectors that name no colour: consumed as a whole, the rest of the list still applies
+        [31, 38, 2, 300, 0, 0], [42, 48, 2, 1, 300, 0], [34, 38, 5, 300], [38, 5, 256, 32], [48, 2, 0, 0, 999, 41], [35, 48, 5, 1000, 39]]
 
 
 def random_a_spec(rng):
